@@ -393,7 +393,7 @@ def _errors(chk, ctx) -> None:
         chk.ob('C20.errors', f'{cname}.__call__:yield', yields_in_else, fi.loc, 'a history is yielded only when parsing it raised nothing')
     # the parsed history is replayed before it is returned (an unreplayable hand raises)
     fi = prog.cls('REParser').methods['_parse']
-    ok = bool(ctx.m.assigns(fi.node, 'tuple(hh)[-1]'))
+    ok = bool(ctx.m.exprs(fi.node, 'tuple(hh)[-1]', nested=False))
     chk.ob('C20.errors', 'REParser._parse:replayed', ok, fi.loc, 'the reconstructed hand is replayed to the end before it is handed out')
 
 
@@ -425,10 +425,15 @@ def _order(chk, ctx, base) -> None:
             if not b:
                 b = m.bind(T.cond(n.test), 'count != 2', boolean=True)
                 body = n.orelse
+            direct = False
+            if not b:
+                for sp, bd in (('len(players) == 2', n.body), ('len(players) != 2', n.orelse)):
+                    if m.eq(T.cond(n.test), sp, boolean=True):
+                        b, body, direct = {'count': None}, bd, True
             if b:
                 calls = sorted(ast.unparse(st.value.func) for st in body if isinstance(st, ast.Expr) and isinstance(st.value, ast.Call))
                 cnt = [x for x in fi.body if isinstance(x, ast.Assign) and isinstance(x.targets[0], ast.Name) and x.targets[0].id == b['count']]
-                rev = calls == sorted([f'{A}.reverse', f'{Bl}.reverse']) and len(cnt) == 1 and m.eq(T.norm(cnt[0].value), 'len(players)')
+                rev = calls == sorted([f'{A}.reverse', f'{Bl}.reverse']) and (direct or (len(cnt) == 1 and m.eq(T.norm(cnt[0].value), 'len(players)')))
     chk.ob('C20.order', 'REParser._parse:heads_up', rev, fi.loc, 'heads-up the forced bets are listed reversed (the button posts the small blind), antes and blinds alike')
     op = base.methods['_get_ordered_players']
     rets = [T.norm(n.value) for n in walk_no_nested(op.node) if isinstance(n, ast.Return) and n.value is not None]
